@@ -9,7 +9,9 @@ import (
 	"io"
 	"os"
 	"path/filepath"
+	"runtime"
 	"runtime/debug"
+	"strconv"
 	"sort"
 	"strings"
 	"sync"
@@ -159,6 +161,7 @@ type recStore struct {
 	autoMid  bool // the store committed on its own (size/time threshold) inside the current block op
 	AutoFlushes int
 	pruneGate func()
+	perG      map[int64][]StoreOp // concurrent drivers: operations per calling goroutine
 }
 
 // PruneBlock passes through to the store; pruneGate (concurrent driver) is a scheduling point in
@@ -204,7 +207,7 @@ func (s *recStore) ApplyBlock(cs consensus.State, cau consensus.ApplyUpdate) {
 	s.inBlock = true
 	s.DBStore.ApplyBlock(cs, cau)
 	s.inBlock = false
-	s.Ops = append(s.Ops, StoreOp{Op: "Apply", ID: cs.Index.ID, Tip: cs.Index.ID})
+	s.note(StoreOp{Op: "Apply", ID: cs.Index.ID, Tip: cs.Index.ID})
 	s.afterBlockOp()
 }
 
@@ -216,16 +219,66 @@ func (s *recStore) RevertBlock(cs consensus.State, cru consensus.RevertUpdate) {
 	s.inBlock = true
 	s.DBStore.RevertBlock(cs, cru)
 	s.inBlock = false
-	s.Ops = append(s.Ops, StoreOp{Op: "Revert", ID: id, Tip: cs.Index.ID})
+	s.note(StoreOp{Op: "Revert", ID: id, Tip: cs.Index.ID})
 	s.afterBlockOp()
 }
 
 func (s *recStore) Flush() error {
 	err := s.DBStore.Flush()
 	if !s.inMid {
-		s.Ops = append(s.Ops, StoreOp{Op: "EndFlush"})
+		s.note(StoreOp{Op: "EndFlush"})
 	}
 	return err
+}
+
+// note records a store operation: for the call in progress, or (concurrent drivers) for the
+// goroutine that performs it -- the manager runs every store operation of a call on the caller's
+// goroutine, under its lock.
+func (s *recStore) note(op StoreOp) {
+	if s.perG == nil {
+		s.Ops = append(s.Ops, op)
+		return
+	}
+	g := Goid()
+	s.mu.Lock()
+	s.perG[g] = append(s.perG[g], op)
+	s.mu.Unlock()
+}
+
+// Goid is the id of the calling goroutine.
+func Goid() int64 {
+	var buf [64]byte
+	n := runtime.Stack(buf[:], false)
+	f := bytes.Fields(buf[:n]) // "goroutine 123 [running]:"
+	id, _ := strconv.ParseInt(string(f[1]), 10, 64)
+	return id
+}
+
+// SubmitConc is Submit for drivers with several submitting goroutines: the store operations of
+// the call are those performed on the calling goroutine.
+func (n *RNode) SubmitConc(blocks []types.Block) (cls string, ops []StoreOp, detail string) {
+	g := Goid()
+	n.Store.mu.Lock()
+	if n.Store.perG == nil {
+		n.Store.perG = map[int64][]StoreOp{}
+	}
+	n.Store.perG[g] = nil
+	n.Store.mu.Unlock()
+	defer func() {
+		n.Store.mu.Lock()
+		ops = append([]StoreOp(nil), n.Store.perG[g]...)
+		n.Store.mu.Unlock()
+		if r := recover(); r != nil {
+			cls = "panic"
+			detail = fmt.Sprint(r)
+		}
+	}()
+	err := n.CM.AddBlocks(blocks)
+	cls = ErrClass(err)
+	if err != nil {
+		detail = err.Error()
+	}
+	return
 }
 
 func (s *recStore) beginCall(flushAt map[int]bool, crashAt int) {
